@@ -280,6 +280,16 @@ func (w *W) builtin(f *frame, b *ssa.Builtin, c *ssa.CallCommon, args []Value, k
 		if a, ok := args[0].(*Slice); ok {
 			return a.cap, g
 		}
+		if ch, ok := args[0].(*Ptr); ok {
+			// channel capacity (the capv cell holds a symbolic make size, o.cap its maximum)
+			var r *Term = BV(64, 0)
+			for _, al := range ch.alts {
+				if al.l != nil && al.l.obj.kind == "chan" {
+					r = Ite(al.g, w.getCell(al.l.obj, "capv", BV(64, uint64(al.l.obj.cap))).(*Term), r)
+				}
+			}
+			return r, g
+		}
 	case "min", "max":
 		a, bb := args[0].(*Term), args[1].(*Term)
 		var lt *Term
